@@ -16,7 +16,7 @@ for grp, ents in rf_gatesets.ENTRIES.items():
         if '-v' in sys.argv:
             for r in out[b.path]:
                 print('    ', rf_senses._fmt(tuple(tuple(y) if isinstance(y, list) else y for y in r)))
-for p in rf_senses.other_functions(prog):
+for p in rf_senses.other_functions(prog) + rf_senses.bbs_decoders(prog):
     se = rf_senses.senses(ctx, 'prod-all', p)
     if se:
         out[p] = sorted([list(x) for x in se], key=str)
